@@ -334,20 +334,23 @@ def extract_projectq(repo):
     shapes = {_dump(_stmt(v)): k for k, v in PQ_WRITE_SHAPES.items()}
     t["wbranches"] = []
     t["single_ctrl"] = []
+    t["single_target"] = []
     for test, b in chain:
         names = _in_set(test, "gate.name", "projectq writer")
         b = list(b)
-        # optional guard at the top of the branch:  if len(gate.control) != 1: raise ValueError(...)
-        if len(b) == 2 and isinstance(b[0], ast.If):
-            g = b[0]
-            if not (_dump(g.test) == _dump(_expr("len(gate.control) != 1")) and not g.orelse):
-                raise TranslateError("projectq writer: unexpected guard `%s`" % ast.unparse(g)[:140])
-            _raises_value_error(g.body, "projectq writer guard")
-            t["single_ctrl"].extend(names)
-            b = b[1:]
+        # optional guards at the top of the branch, in this order:
+        #   if len(gate.target) != 1: raise ValueError(...)      if len(gate.control) != 1: raise ValueError(...)
+        for attr, key in (("target", "single_target"), ("control", "single_ctrl")):
+            if len(b) >= 2 and isinstance(b[0], ast.If) and _dump(b[0].test) == _dump(_expr("len(gate.%s) != 1" % attr)):
+                if b[0].orelse:
+                    raise TranslateError("projectq writer: guard with an else part `%s`" % ast.unparse(b[0])[:140])
+                _raises_value_error(b[0].body, "projectq writer guard")
+                t[key].extend(names)
+                b = b[1:]
         if len(b) != 1 or _dump(b[0]) not in shapes:
             raise TranslateError("projectq writer: unexpected branch body `%s`" % ast.unparse(b[0])[:140])
         t["wbranches"].append({"names": names, "shape": shapes[_dump(b[0])]})
+    t["single_target"] = sorted(set(t["single_target"]))
     t["single_ctrl"] = sorted(set(t["single_ctrl"]))
 
     # ---- reader
@@ -473,6 +476,7 @@ def emit(t):
          "  pq_wbranches := [%s];" % "; ".join("(%s, %s)" % (coq_string_list(b["names"]), b["shape"]) for b in p["wbranches"]),
          "  pq_rbranches := [%s];" % "; ".join("(%s, %s)" % (coq_string_list(b["names"]), b["shape"]) for b in p["rbranches"]),
          "  pq_restores_width := %s;" % _b(p["restores_width"]),
+         "  pq_w_single_target := %s;" % coq_string_list(p["single_target"]),
          "  pq_w_single_ctrl := %s;" % coq_string_list(p["single_ctrl"]),
          "  pq_ignored := %s" % coq_string_list(p["ignored"]),
          "|}.", "",
